@@ -1090,7 +1090,23 @@ class TTracker:
         return self.ncell
 
     def fresh(self, ids):
-        return None if ids is None else [self.cell() for _ in ids]
+        """new arrays for a copy; an array listed twice (a list index with repeats) stays one array listed
+        twice: deepcopy keeps the offsets"""
+        if ids is None:
+            return None
+        m = {}
+        return [m.setdefault(c, self.cell()) for c in ids]
+
+    def dealias(self, ids):
+        """growth moves a view onto a compact buffer of its own: an element that was listed twice becomes
+        two arrays (the first occurrence keeps the name; whether it still is the parent's array is left open)"""
+        if ids is None:
+            return None
+        seen, out = set(), []
+        for c in ids:
+            out.append(self.cell() if c in seen else c)
+            seen.add(c)
+        return out
 
     def live(self):
         return [i for i, t in enumerate(self.ts) if t['alive']]
@@ -1099,7 +1115,7 @@ class TTracker:
         f = tok.split(':')
         o = f[0]
         T = self.ts
-        if o == 'tnew':
+        if o in ('tnew', 'tnew8'):
             if f[1] == '-':
                 T.append(dict(S=[], P=None, M=None, alive=True, lens=[]))
             else:
@@ -1114,10 +1130,12 @@ class TTracker:
             if o == 'tadd':
                 t = dict(S=self.fresh(t['S']), P=self.fresh(t['P']), M=self.fresh(t['M']), alive=True)
                 T.append(t)
+            grows = bool(src['S'])
             for c in COMPS:
-                add = self.fresh(src[c])
+                add = None if src[c] is None else [self.cell() for _ in src[c]]     # extend copies every element
                 if add is not None:
-                    t[c] = (t[c] or []) + add
+                    base = t[c] or []
+                    t[c] = (self.dealias(base) if grows and c != 'M' else base) + add
             return 'ok'
         if o == 'tcopy':
             T.append(dict(S=self.fresh(t['S']), P=self.fresh(t['P']), M=self.fresh(t['M']), alive=True))
@@ -1126,7 +1144,11 @@ class TTracker:
             ps = positions(len(t['S']), dec_index(f[2]))
             if isinstance(ps, str):
                 return ps
-            T.append(dict(alive=True, **{c: None if t[c] is None else [t[c][p] for p in ps] for c in COMPS}))
+            isslice = isinstance(dec_index(f[2]), slice)
+            new = {c: None if t[c] is None else [t[c][p] for p in ps] for c in ('S', 'P')}
+            # data_per_streamline rows: a slice is a NumPy view, a list / mask index copies the rows
+            new['M'] = None if t['M'] is None else ([t['M'][p] for p in ps] if isslice else [self.cell() for _ in ps])
+            T.append(dict(alive=True, **new))
             return 'ok'
         if o == 'tdrop':
             t['alive'] = False
@@ -1185,7 +1207,7 @@ def check_thistory(toks, steps):
             cur = parse_tobs(obs_s)
             f = tok.split(':')
             o = f[0]
-            target = int(f[1]) if o != 'tnew' else None
+            target = int(f[1]) if o not in ('tnew', 'tnew8') else None
             old_ids = {i: {c: (None if t[c] is None else list(t[c])) for c in COMPS} for i, t in enumerate(tr.ts)}
             wr = tr.written(tok)
             exp_res = tr.apply(tok)
@@ -1205,7 +1227,7 @@ def check_thistory(toks, steps):
             def cat2(a, b):
                 return a if b is None else b if a is None else a + b
 
-            new_idx = len(tr.ts) - 1 if (res == 'ok' and o in ('tnew', 'tadd', 'tcopy', 'tget')) else None
+            new_idx = len(tr.ts) - 1 if (res == 'ok' and o in ('tnew', 'tnew8', 'tadd', 'tcopy', 'tget')) else None
             for i in tr.live():
                 if i not in cur:
                     fails.append(('missing', k, f'{tok}: tractogram {i} not observed'))
@@ -1215,7 +1237,7 @@ def check_thistory(toks, steps):
                     if res != 'ok':
                         exp = [[x] for x in prev[i][ci]] if prev[i][ci] is not None else None
                     elif i == new_idx:
-                        if o == 'tnew':
+                        if o in ('tnew', 'tnew8'):
                             if f[1] == '-':
                                 e1 = [] if ci == 0 else None
                             else:
@@ -1235,10 +1257,16 @@ def check_thistory(toks, steps):
                         exp = None if e1 is None else [[x] for x in e1]
                     elif is_write and ci == wcomp and prev[i][ci] is not None:
                         ids = old_ids[i][comp]
+                        tids = old_ids[target][comp] or []
                         exp = []
                         for q, old in enumerate(prev[i][ci]):
                             if ids[q] in wr:
-                                exp.append([g(old)] if i == target else [g(old), old])
+                                # an in-place operator / apply_affine updates an array once per occurrence in
+                                # the target (a list-index view with repeats); an assignment is idempotent
+                                new = old
+                                for _ in range(tids.count(ids[q]) if o in ('tiop', 'tiopp', 'taff') else 1):
+                                    new = g(new)
+                                exp.append([new] if i == target else [new, old])
                             else:
                                 exp.append([old])
                     else:
@@ -1269,7 +1297,7 @@ def check_thistory(toks, steps):
 def tract_core():
     """seed-independent Tractogram histories: derive x (grow) x write, for several sources"""
     out = []
-    inits = ['tnew:1.2/3/4.5.6', 'tnew:7/8/9']
+    inits = ['tnew:1.2/3/4.5.6', 'tnew8:7/8/9']
     writes = lambda d: [f'tset:{d}:0:77', f'tsetp:{d}:-1:88', f'tsetm:{d}:0:99', f'tsets:{d}:s,n,n,2:55',
                         f'tsetsp:{d}:s,n,n,n:66', f'tiop:{d}:add,100', f'tiopp:{d}:mul,2', f'taff:{d}:100']
     for init in inits:
@@ -1277,6 +1305,7 @@ def tract_core():
         pre = [init, 'tnew:-', 'tget:0:s,0,0,n', 'tget:0:l', 'tnew:20.21/22']
         derives = [['tadd:0:1'], ['tadd:0:2'], ['tadd:0:3'], ['tadd:0:4'], ['tadd:0:0'], ['tcopy:0'],
                    ['tget:0:s,n,n,n'], ['tget:0:s,1,n,n'], ['tget:0:l,2,0'], ['tget:0:m,1,0,1'],
+                   ['tget:0:l,0,0,0'], ['tget:0:l,0,0'], ['tget:0:l,1,0,1'],      # repeated indices (S-C15k)
                    ['tget:0:s,n,n,n', 'tadd:5:1'], ['tget:0:s,1,n,n', 'tadd:5:2'], ['tcopy:0', 'tget:5:s,n,2,n'],
                    ['tadd:2:0'], ['tadd:2:1']]
         for d in derives:
@@ -1310,7 +1339,7 @@ def tract_random(rng, depth):
             cnt[0] += n
         return enc_elems(els)
 
-    push('tnew:' + elems())
+    push(rng.choice(['tnew:', 'tnew8:']) + elems())
     push('tnew:-')
     nmul = 0
     for _ in range(depth):
@@ -1339,6 +1368,8 @@ def tract_random(rng, depth):
                 push(f'tget:{i}:' + enc_slice(rng.choice(c), rng.choice(c), rng.choice([None, 1, 2, -1])))
             elif r < 0.8:
                 ks = rng.sample(range(n), rng.randrange(0, n + 1)) if n else []
+                if n and rng.random() < 0.3:
+                    ks = [rng.randrange(n) for _ in range(rng.randrange(1, 4))]      # repeats allowed
                 push(f'tget:{i}:l' + ''.join(f',{k}' for k in ks))
             else:
                 push(f'tget:{i}:m' + ''.join(',' + str(rng.randrange(2)) for _ in range(n)))
